@@ -37,6 +37,19 @@ class QueueGet(Contract_):
     loops = {}
 
     def apply(self, ex, args, kwargs, frame, node):
+        # "each request is sent once": the loop must not block on an empty
+        # queue while requests it has already taken wait in an unsent frame
+        q = args[0]
+        dgrams = frame.env.lookup("dgrams") if frame.env.has("dgrams") else None
+        if dgrams is not None:
+            from vc.pyvc.values import lift_bool
+            n = dgrams.length if hasattr(dgrams, "length") else z3.IntVal(len(dgrams.items))
+            known = q.fields.get("g_nonempty", False)
+            ex.check("sendloop.get.requires[no batched request is left waiting on an empty queue]",
+                     z3.Or(n == 0, lift_bool(known)),
+                     "when the loop waits for the next request, the frame under construction is empty or the "
+                     "queue is known to hold a request (so the wait returns at once and the batch goes on)")
+        q.fields["g_nonempty"] = False
         return fresh(ex, REQUEST, "request")
 
 
@@ -45,7 +58,10 @@ class QueueEmpty(Contract_):
     loops = {}
 
     def apply(self, ex, args, kwargs, frame, node):
-        return fresh(ex, T.Bool, "queue_empty")
+        r = fresh(ex, T.Bool, "queue_empty")
+        from vc.pyvc.values import mk_bool, lift_bool
+        args[0].fields["g_nonempty"] = mk_bool(z3.Not(lift_bool(r)))
+        return r
 
 
 class NewPacket(Contract_):
@@ -123,7 +139,7 @@ QueueModel.empty.__qualname__ = "QueueModel.empty"
 
 sendloop = Contract(
     EtherCat.sendloop,
-    params=dict(self=T.Obj(EtherCat, send_queue=T.Obj(QueueModel))),
+    params=dict(self=T.Obj(EtherCat, send_queue=T.Obj(QueueModel, g_nonempty=T.Const(False)))),
     loops={1: Loop(
         invariant={
             "frame_well_formed": "packet_inv(packet)",
@@ -131,6 +147,8 @@ sendloop = Contract(
             "own_windows": "windows_match(dgrams, packet)",
             "an_unsent_request_faces_an_empty_frame":
                 "(len(dgrams) == 0 and packet.size == 16) if not sent else True",
+            "a_batch_waits_only_for_a_request_that_is_there":
+                "implies(sent and len(dgrams) > 0, self.send_queue.g_nonempty)",
         },
         body_post={
             # O6: an iteration that did not take a new request from the queue
@@ -138,7 +156,8 @@ sendloop = Contract(
             # one -- put it into the frame or fail it -- and not spin
             "no_iteration_without_progress": "pre.sent or sent",
         },
-        modifies={"dgrams": T.List(T.Tuple(T.Int, T.Int, T.Int)), "packet": PACKET,
+        modifies={"self.send_queue.g_nonempty": T.Bool,
+                  "dgrams": T.List(T.Tuple(T.Int, T.Int, T.Int)), "packet": PACKET,
                   "sent": T.Bool, "dgram": T.Tuple(T.Enum(ECCmd), T.Bytes, T.Range(0, 255),
                                                    T.Range(-32768, 65535), T.Range(0, 65535)),
                   "future": FUT, "lastsize": T.Int, "start": T.Int, "stop": T.Int})},
